@@ -388,14 +388,14 @@ static void do_line(char* line, int in_script) {
     if (!ok || st > 0) printf("bad-op\n");
     else if (do_release(st, f) != 0) printf("#norelease\n");
     else printf("#released\n");
-  } else if (!strcmp(w[0], "run") && argc == 1) { uv_run(&loop, UV_RUN_NOWAIT); printf("ran\n"); }
+  } else if (!strcmp(w[0], "run") && argc == 1) { uv_run(&loop, UV_RUN_NOWAIT); printf("#ran\n"); }
   else if (!strcmp(w[0], "dispatch") && mode == 1) do_dispatch(argc, w);
   else if (mode == 2 && (!strcmp(w[0], "create") || !strcmp(w[0], "write") || !strcmp(w[0], "chmod") || !strcmp(w[0], "unlink") ||
                          !strcmp(w[0], "mkdir") || !strcmp(w[0], "rmdir") || !strcmp(w[0], "rename"))) real_op(argc, w);
   else if (mode == 2 && !strcmp(w[0], "settle") && argc == 1) {
     /* let the kernel's records arrive: a few non-blocking passes */
     for (int i = 0; i < 3; i++) uv_run(&loop, UV_RUN_NOWAIT);
-    printf("settled\n");
+    printf("#settled\n");
   } else printf("bad-op\n");
   free(copy);
 }
